@@ -269,6 +269,10 @@ fn all_setups() -> Vec<Setup> {
     s("mbc3 128x16K 32K rom85 ram3", 0x13, 0x06, 0x03, [0x0A, 0x55, 3, 0], 0x1F, 0x1F, 2, None),
     s("mbc1 4x16K 32K mode1 rom3 ram3 ie=ff dma", 0x03, 0x01, 0x03, [0x0A, 3, 3, 1], 0xFF, 0x00, 1, Some(0xFE)),
     s("mbc3 128x16K 32K rom1 ram0", 0x13, 0x06, 0x03, [0x0A, 1, 0, 0], 0x10, 0x01, 1, None),
+    // ROM sizes that are not a power of two (header codes 0x52-0x54: 72, 80, 96 banks)
+    s("mbc1 72x16K 32K mode0 rom41 hi1", 0x03, 0x52, 0x03, [0x0A, 9, 1, 0], 0x00, 0x00, 1, None),
+    s("mbc3 96x16K 32K rom45 ram1", 0x13, 0x54, 0x03, [0x0A, 45, 1, 0], 0x05, 0x02, 0, None),
+    s("mbc1 80x16K 8K mode1 rom19 ", 0x03, 0x53, 0x02, [0x0A, 19, 0, 1], 0x1F, 0x11, 2, None),
   ]
 }
 
@@ -869,7 +873,7 @@ pub fn run(tier: &str) -> i32 {
   rep.assume("echo RAM is judged as the statement words it (constant, ignores writes), not as a WRAM mirror");
 
   let setups = all_setups();
-  let active: Vec<usize> = if thorough { (0..setups.len()).collect() } else { vec![1, 5, 11] };
+  let active: Vec<usize> = if thorough { (0..setups.len()).collect() } else { vec![1, 5, 11, 14] };
   let values: Vec<u8> = if thorough { vec![0x00, 0x55, 0xAA, 0xFF, 0x0A, 0x80] } else { vec![0x55, 0xAA] };
   let mut images: Vec<Vec<u8>> = Vec::new();
   let mut paths: Vec<String> = Vec::new();
